@@ -187,9 +187,9 @@ bool StepScript(InterpreterEnv& env)
             return set_error(serror, SCRIPT_ERR_EVAL_FALSE);
         // Additional validation for spend-to-script-hash transactions:
         if (env.script.IsPayToScriptHash()) {
-            // // scriptSig must be literals-only or validation fails
-            // if (!scriptSig.IsPushOnly())
-            //     return set_error(serror, SCRIPT_ERR_SIG_PUSHONLY);
+            // scriptSig must be literals-only or validation fails
+            if (env.sigscript_executed && !env.sigscript_pushonly)
+                return set_error(serror, SCRIPT_ERR_SIG_PUSHONLY);
 
             // Restore stack.
             is_p2sh = false;
@@ -217,6 +217,8 @@ bool StepScript(InterpreterEnv& env)
     }
 
     if (env.successor_script.size()) {
+        env.sigscript_executed = true;
+        env.sigscript_pushonly = script.IsPushOnly();
         script = env.successor_script;
         env.successor_script.clear();
         pc = env.pbegincodehash = script.begin();
